@@ -143,11 +143,22 @@ def _inplace_signers(ctx, rule="R3"):
             _r, steps = access_path(ev[2])
             if not (steps and steps[0] == ("sub", C("signatures"))):
                 bad.append("%s at %s" % (show(ev[2])[:80], ev[1].loc()))
+        rebuilt = bool(written) and all(_rebuilt_from(eng.expand(ev[3][0]), L) for ev in written)
         ctx.count(rule + ".signers")
-        ctx.ob(rule, "writes-only-signatures|%s" % q, site.loc(), "%s %s" % (q, "modifies the loaded document only under ['signatures'] (%d store events)" % len(stores) if not bad else "modifies more than the signatures part of the loaded document: " + "; ".join(sorted(set(bad)))[:300]), not bad and bool(stores))
-        same = bool(written) and all(eng.expand(ev[3][0]) == L and ev[3][1] == p0 for ev in written)
+        ctx.ob(rule, "writes-only-signatures|%s" % q, site.loc(), "%s %s" % (q, ("writes {**loaded document, 'signatures': ...}: everything but the signatures part is carried over" if rebuilt and not stores else "modifies the loaded document only under ['signatures'] (%d store events)" % len(stores)) if not bad else "modifies more than the signatures part of the loaded document: " + "; ".join(sorted(set(bad)))[:300]), not bad and (bool(stores) or rebuilt))
+        same = bool(written) and all((eng.expand(ev[3][0]) == L or _rebuilt_from(eng.expand(ev[3][0]), L)) and ev[3][1] == p0 for ev in written)
         ctx.ob(rule, "writes-back-what-it-loaded|%s" % q, site.loc(), "%s %s" % (q, "writes the loaded document back to the path it was loaded from" if same else "does not write the loaded value back to the same path: " + "; ".join("write_metadata_to_file(%s)" % ", ".join(show(a)[:60] for a in ev[3]) for ev in written)[:300]), same)
     ctx.floor(rule + ".signers", 4)
+
+
+def _rebuilt_from(v, L):
+    """v == {**L, "signatures": X}: a new document that carries every other field of L over"""
+    from sa.terms import is_lit
+
+    if not is_lit(v, "dict") or not v[2]:
+        return False
+    items = list(v[2])
+    return items[0] == (("unpack",), L) and all(k == C("signatures") for k, _x in items[1:]) and len(items) >= 2
 
 
 def _apply(term, steps):
